@@ -123,6 +123,13 @@ Proof.
   vm_compute. repeat split; reflexivity.
 Qed.
 
+(** the Ok branch of [mstep_total] at that state: the local precommit for the local header commits height 2 *)
+Example x_state_continues :
+  mstep_panic_site x_state (MActPrecommit [8] (SVote 7 KPrecommit 2 1 [8])) = None /\
+  exists s', mstep x_state (MActPrecommit [8] (SVote 7 KPrecommit 2 1 [8])) = Ok (s', 0, IONone) /\
+             st_nhr (ms_k s') = (3, 0, 2, 1).
+Proof. split; [vm_compute; reflexivity|]. eexists. vm_compute. split; reflexivity. Qed.
+
 (** * Every named site is reachable *)
 
 (** replay for an earlier round: a nil precommit of the whole power moves the mirror to round 1 *)
